@@ -3,6 +3,7 @@ import XPathV.Model.Api
 import XPathV.Lemmas.Facts
 import XPathV.Lemmas.PosSem
 import XPathV.Lemmas.PosSem2
+import XPathV.Lemmas.PosSem3
 /-!
 # C03 — positional predicates on child steps use the XPath proximity position
 -/
@@ -469,5 +470,108 @@ theorem C03_position_after_steps_full_unconditional {d : Doc} (wf : WF d) (cfg :
         condTruth F d cond x (k + 1) (childCands d cfg a p).length = true) :=
   C03_position_after_steps_full wf cfg hns (PathSem.hashInj_holds wf hattr cfg) regexOk limit a ha q
     hq cond hcond st o hb c hc
+
+end XPathV.Theorems.C03
+
+/-! ## `position()` / `last()` anywhere in the first predicate, everything on `Frag2`
+
+`PosSem3.PosCond2` has the constructors of `PosSem.PosCond` with the embedded boolean predicates in
+`PredSem2.Frag2 false` and the paths compared with `position()` / `last()` / a literal in
+`Frag2 true` (`PosSem3.posCond2_of_posCond : PosCond c → PosCond2 c`), e.g.
+`[@x < @y and position() = 2]`, `[count(b) = 1 or position() = last()]`,
+`[not(contains(c, 'k')) and (b)[d = e] >= position()]` (proofs in `Lemmas/PosSem3.lean`). -/
+namespace XPathV.Theorems.C03
+open XPathV XPathV.Model XPathV.Facts NumAlg
+
+variable {F : Type} [NumAlg F]
+
+open XPathV.PathSem XPathV.PredSem XPathV.PredSem2 XPathV.PosSem XPathV.PosSem3 in
+/-- **`C03_position_after_steps` on the whole C02 fragment**: input path `q` in `Frag2 true`,
+condition in `PosCond2` (boolean combinations — `and` / `or` / `not` — of predicates of
+`Frag2 false` and of comparisons among `position()`, `last()`, number literals and paths of
+`Frag2 true`).  The plan the builder produces for `q/child::a[cond]` selects exactly the oracle's
+node set: the candidates `x` of an input node `p` on which the oracle's reading of `cond` — at `x`,
+with the 1-based position of `x` among the candidates of `p` and their number — is true -/
+theorem C03_position_after_steps_all_full {d : Doc} (wf : WF d) (cfg : ECfg) (hns : cfg.nsIface = true)
+    (hinj : HashInj d cfg) (regexOk : RegexOk) (limit : Nat) (a : AxisInfo) (ha : a.axis = "child")
+    (q : Ast) (hq : Frag2 true q) (cond : Ast) (hcond : PosCond2 cond) (st : BState) (o : BOut)
+    (hb : build regexOk limit true false (.filter (.axis a q) cond) {} st = .ok o)
+    (c : Ref) (hc : validRef d c = true) :
+    ∃ out ns g origins g0, sel (F := F) d cfg o.q c = .ok out ∧
+      Spec.eval (F := F) d (.filter (.axis a q) cond) ⟨c, 1, 1⟩ = .ok (.val (.nodes ns) g) ∧
+      Spec.eval (F := F) d q ⟨c, 1, 1⟩ = .ok (.val (.nodes origins) g0) ∧
+      (∀ x, x ∈ refs out ↔ x ∈ ns) ∧
+      (∀ x, x ∈ ns ↔ ∃ p ∈ origins, ∃ k, (childCands d cfg a p)[k]? = some x ∧
+        condTruth F d cond x (k + 1) (childCands d cfg a p).length = true) :=
+  PosSem3.C03_after_steps3 wf cfg hns hinj regexOk limit a ha q hq cond hcond st o hb c hc
+
+open XPathV.PathSem XPathV.PredSem XPathV.PredSem2 XPathV.PosSem XPathV.PosSem3 in
+/-- `C03_position_after_steps_all_full` without the `HashInj` hypothesis (`hashInj_holds`) -/
+theorem C03_position_after_steps_all_full_unconditional {d : Doc} (wf : WF d) (cfg : ECfg)
+    (hns : cfg.nsIface = true) (hattr : AttrTriplesDistinct d) (regexOk : RegexOk) (limit : Nat)
+    (a : AxisInfo) (ha : a.axis = "child") (q : Ast) (hq : Frag2 true q) (cond : Ast)
+    (hcond : PosCond2 cond) (st : BState) (o : BOut)
+    (hb : build regexOk limit true false (.filter (.axis a q) cond) {} st = .ok o)
+    (c : Ref) (hc : validRef d c = true) :
+    ∃ out ns g origins g0, sel (F := F) d cfg o.q c = .ok out ∧
+      Spec.eval (F := F) d (.filter (.axis a q) cond) ⟨c, 1, 1⟩ = .ok (.val (.nodes ns) g) ∧
+      Spec.eval (F := F) d q ⟨c, 1, 1⟩ = .ok (.val (.nodes origins) g0) ∧
+      (∀ x, x ∈ refs out ↔ x ∈ ns) ∧
+      (∀ x, x ∈ ns ↔ ∃ p ∈ origins, ∃ k, (childCands d cfg a p)[k]? = some x ∧
+        condTruth F d cond x (k + 1) (childCands d cfg a p).length = true) :=
+  C03_position_after_steps_all_full wf cfg hns (PathSem.hashInj_holds wf hattr cfg) regexOk limit a ha
+    q hq cond hcond st o hb c hc
+
+open XPathV.PathSem XPathV.PredSem XPathV.PredSem2 XPathV.PosSem XPathV.PosSem3 in
+/-- **`C03_bool_with_position` on the whole C02 fragment**: `[b and position() op n]` /
+`[position() op n and b]` / `[b or position() op n]` / `[position() op n or b]` (`s : MixShape`)
+with the input path `q` in `Frag2 true` and `b` any boolean predicate of `Frag2 false` — e.g.
+`/r/*[@x < @y and position() = 2]`, `a[count(b) = 1 or position() < 3]`: the built plan selects
+exactly the oracle's node set — the candidates `x` of an input node `p` such that `b` holds at `x`
+and (resp. or) the 1-based position of `x` among the candidates of `p` stands in the relation `op`
+to the literal -/
+theorem C03_bool_with_position_full {d : Doc} (wf : WF d) (cfg : ECfg) (hns : cfg.nsIface = true)
+    (hinj : HashInj d cfg) (regexOk : RegexOk) (limit : Nat) (a : AxisInfo) (ha : a.axis = "child")
+    (q : Ast) (hq : Frag2 true q) (s : MixShape) (b : Ast) (hbf : Frag2 false b) (cop : Spec.CmpOp)
+    (pfx lex : String) (st : BState) (o : BOut)
+    (hb : build regexOk limit true false
+      (.filter (.axis a q) (s.ast b (PosForm.posCmp cop pfx lex).ast)) {} st = .ok o)
+    (c : Ref) (hc : validRef d c = true) :
+    ∃ out ns g origins g0, sel (F := F) d cfg o.q c = .ok out ∧
+      Spec.eval (F := F) d (.filter (.axis a q) (s.ast b (PosForm.posCmp cop pfx lex).ast)) ⟨c, 1, 1⟩ =
+        .ok (.val (.nodes ns) g) ∧
+      Spec.eval (F := F) d q ⟨c, 1, 1⟩ = .ok (.val (.nodes origins) g0) ∧
+      (∀ x, x ∈ refs out ↔ x ∈ ns) ∧
+      (∀ x, x ∈ ns ↔ ∃ p ∈ origins, ∃ k, (childCands d cfg a p)[k]? = some x ∧
+        s.comb (holds (F := F) d b x)
+          (Spec.cmpNum cop (ofNat (k + 1) : F) (Spec.strToNum lex)) = true) :=
+  PosSem3.C03_bool_with_position3 wf cfg hns hinj regexOk limit a ha q hq s b hbf cop pfx lex st o hb
+    c hc
+
+open XPathV.PathSem XPathV.PredSem XPathV.PredSem2 XPathV.PosSem XPathV.PosSem3 in
+/-- `C03_bool_with_position_full` without the `HashInj` hypothesis (`hashInj_holds`) -/
+theorem C03_bool_with_position_full_unconditional {d : Doc} (wf : WF d) (cfg : ECfg)
+    (hns : cfg.nsIface = true) (hattr : AttrTriplesDistinct d) (regexOk : RegexOk) (limit : Nat)
+    (a : AxisInfo) (ha : a.axis = "child")
+    (q : Ast) (hq : Frag2 true q) (s : MixShape) (b : Ast) (hbf : Frag2 false b) (cop : Spec.CmpOp)
+    (pfx lex : String) (st : BState) (o : BOut)
+    (hb : build regexOk limit true false
+      (.filter (.axis a q) (s.ast b (PosForm.posCmp cop pfx lex).ast)) {} st = .ok o)
+    (c : Ref) (hc : validRef d c = true) :
+    ∃ out ns g origins g0, sel (F := F) d cfg o.q c = .ok out ∧
+      Spec.eval (F := F) d (.filter (.axis a q) (s.ast b (PosForm.posCmp cop pfx lex).ast)) ⟨c, 1, 1⟩ =
+        .ok (.val (.nodes ns) g) ∧
+      Spec.eval (F := F) d q ⟨c, 1, 1⟩ = .ok (.val (.nodes origins) g0) ∧
+      (∀ x, x ∈ refs out ↔ x ∈ ns) ∧
+      (∀ x, x ∈ ns ↔ ∃ p ∈ origins, ∃ k, (childCands d cfg a p)[k]? = some x ∧
+        s.comb (holds (F := F) d b x)
+          (Spec.cmpNum cop (ofNat (k + 1) : F) (Spec.strToNum lex)) = true) :=
+  C03_bool_with_position_full wf cfg hns (PathSem.hashInj_holds wf hattr cfg) regexOk limit a ha q hq
+    s b hbf cop pfx lex st o hb c hc
+
+open XPathV.PosSem XPathV.PosSem3 in
+/-- the conditions of `C03_position_after_steps` are among those of
+`C03_position_after_steps_all_full` -/
+theorem C03_posCond_subset (c : Ast) (h : PosCond c) : PosCond2 c := posCond2_of_posCond c h
 
 end XPathV.Theorems.C03
